@@ -168,7 +168,40 @@ def replay_process_request(model):
                 clause="process_request touches only buckets[client_ip]; refusal is 44 + retry hint only when exhausted")
 
 
+def through_protocol():
+    """a RateLimiter installed as the protocol's middleware (bare, and inside a MiddlewareChain) limits from the first request on"""
+    from replay.server_bank import FakeTransport
+    from nauyaca.server.protocol import GeminiServerProtocol
+    from nauyaca.protocol.response import GeminiResponse
+    for wrap in (False, True):
+        clock = Clock()
+        mw.time.monotonic = clock
+        rl = mw.RateLimiter(mw.RateLimitConfig(capacity=3, refill_rate=0.0, retry_after=17))
+        m = mw.MiddlewareChain([rl]) if wrap else rl
+        outs = []
+        for _ in range(8):
+            async def go():
+                p_ = GeminiServerProtocol(lambda r: GeminiResponse(status=20, meta="text/gemini", body="ok"), m)
+                t = FakeTransport(peer=("198.51.100.77", 4242))
+                t.proto = p_
+                p_.connection_made(t)
+                p_.data_received(b"gemini://example.org/\r\n")
+                for _i in range(8):
+                    await asyncio.sleep(0)
+                if p_.timeout_handle:
+                    p_.timeout_handle.cancel()
+                return t.out[:3]
+            outs.append(asyncio.run(go()))
+        if outs != [b"20 "] * 3 + [b"44 "] * 5:
+            return dict(confirmed=True, input=dict(capacity=3, refill_rate=0.0, requests=8, middleware="MiddlewareChain([RateLimiter])" if wrap else "RateLimiter (bare)"),
+                        observed=dict(statuses=[o.decode() for o in outs]), clause="at most capacity + rate * T requests of one address are admitted in any window - also when the limiter itself is the protocol's middleware")
+    return None
+
+
 def bank(seed):
+    r = through_protocol()
+    if r:
+        return r
     """Bounded stand-in: scripted arrival histories under a virtual clock, with clean-up passes,
     compared step by step with an exact-arithmetic token bucket; plus the window bound."""
     import random
@@ -227,6 +260,8 @@ def main():
     if ob == "__bounded__":
         done(**bank(int(p.get("seed", 0))))
     model = p.get("model") or {}
+    if "/syntactic/" in ob:
+        done(**(through_protocol() or dict(confirmed=False, reason="a limiter installed as the protocol's middleware limits from the first request on")))
     if "eviction" in ob:
         done(**replay_eviction(model))
     if "TokenBucket.consume/" in ob:
